@@ -1,4 +1,8 @@
-import LinOp.C08.Proofs14
+import LinOp.C08.Proofs15
+import LinOp.C08.Proofs17
+import LinOp.C08.Proofs18
+import LinOp.C08.Proofs19
+import LinOp.C08.Proofs20
 import LinOp.C08.Known
 import LinOp.Generated.C08Consts
 /-!
@@ -445,15 +449,10 @@ theorem previous_code_tridiag_one_iter_counterexample :
     Known.loopSummary (iterate Known.ratOps Known.params1 Known.sysz1 1) = (1, true, 0, [2]) := by
   decide +kernel
 
-/-- *Partial* form of `cg_tridiag_eq_lanczos`.  Full claim (not closed): with `q_k = (−1)^k r_k/√(r_kᵀz_k)`
-the vectors `M⁻¹ᐟ² q_k`-images are orthonormal and `Qᵀ (M⁻¹ᐟ² A M⁻¹ᐟ²) Q = T`, i.e. `T` is the Lanczos matrix of the
-preconditioned operator started at the normalised right-hand side.  Proved here: the three-term relation
-that makes `T` the matrix of `A M⁻¹` in the residual basis — for consecutive iterations with non-zero step
-lengths, `A z₁ = −(1/α₁) r₂ + (1/α₁ + β₀/α₀) r₁ − (β₀/α₀) r₀`, whose middle coefficient is the diagonal
-entry written by the code (`cg_tridiag_entries`) and whose outer coefficients multiply to the square
-`β₀/α₀²` of its off-diagonal entry.  Mutual `M⁻¹`-orthogonality of all residuals is `cg_invariants`.  Missing:
-assembling the two into `QᵀBQ = T` for the sqrt-normalised residuals, and Cauchy interlacing for the Ritz values
-(both checked on the implementation only). -/
+/-- Three-term relation (per-step ingredient of `cg_tridiag_eq_lanczos` below, kept as an obligation): for consecutive
+iterations with non-zero step lengths, `A z₁ = −(1/α₁) r₂ + (1/α₁ + β₀/α₀) r₁ − (β₀/α₀) r₀`, whose middle coefficient is the
+diagonal entry written by the code (`cg_tridiag_entries`) and whose outer coefficients multiply to the square `β₀/α₀²` of its
+off-diagonal entry — `T` is the matrix of `A M⁻¹` in the residual basis.  Any linear closure, no regularity assumption. -/
 theorem cg_tridiag_eq_lanczos_partial (N : NumOps α) (P : Params α) {n : Nat} {s : Sys α n} (hA : Lin s.amul)
     (iz : Bool) (c0 : Col α n)
     (h0 : (colStep N P s iz c0).alpha ≠ 0) (h1 : (colStep N P s iz (colStep N P s iz c0)).alpha ≠ 0) :
@@ -462,6 +461,88 @@ theorem cg_tridiag_eq_lanczos_partial (N : NumOps α) (P : Params α) {n : Nat} 
     s.amul c1.z = (-(1 / c2.alpha)) • c2.r + (1 / c2.alpha + c1.beta / c1.alpha) • c1.r
         - (c1.beta / c1.alpha) • c0.r :=
   three_term N P hA iz c0 h0 h1
+
+/-- **Closed form of the accumulated tridiagonal matrix**, any history: after `m` consecutive tridiagonal updates
+(`triFold`: iterations `0 … m−1` of the `update_tridiag` block, `cs k` the column state after the kernel of iteration `k`,
+starting from the zero `t_mat`) EVERY entry of `t_mat` is the one of
+`lanczosT`: `T[0,0] = 1/α₀`, `T[k,k] = 1/α_k + β_{k−1}/α_{k−1}`, `T[k+1,k] = T[k,k+1] = √β_k/α_k` for indices `< m`, zero elsewhere
+(`1/α` is the code's masked reciprocal `alphaRecip`).  Later updates never overwrite earlier entries. -/
+theorem cg_tridiag_closed_form (N : NumOps α) {n : Nat} (cs : Nat → Col α n) (m : Nat) (i j : Nat) :
+    (triFold N cs m).t i j = if i < m ∧ j < m then lanczosT N cs i j else 0 :=
+  (triFold_closed N cs m).1 i j
+
+/-- **`QᵀBQ = T`: the tridiagonal matrix is the Lanczos matrix of the preconditioned operator** (`cg_tridiag_eq_lanczos`,
+FULL matrix identity, every size `n`, every number `m` of regular steps, either kernel, any ordered field with lawful `sqrt`).
+Let `r_k, z_k = M⁻¹ r_k` be the residual / preconditioned residual after `k` iterations and
+`q̂_k = (−1)^k r_k/√(r_kᵀz_k)`, `ẑ_k = (−1)^k z_k/√(r_kᵀz_k) = M⁻¹ q̂_k`.  If the first `m` iterations are regular steps, `A` is
+symmetric and the preconditioner symmetric linear, then for ALL `i, j < m`:
+* `q̂_iᵀ ẑ_j = δ_ij`  (with `Q = M⁻¹ᐟ² Q̂ = M¹ᐟ² Ẑ`: `QᵀQ = I`; `q̂_0 = r_0/‖r_0‖_{M⁻¹}` is the normalised start vector), and
+* `ẑ_iᵀ A ẑ_j = t_mat[i, j]`  (`= Qᵀ (M⁻¹ᐟ² A M⁻¹ᐟ²) Q`), where `t_mat` is what the `m` tridiagonal updates of the loop wrote
+  (`triFold` over the column's own trajectory) — diagonal, sub- and super-diagonal and the zeros outside the band.
+Proof: `z_k = p_k − β_{k−1} p_{k−1}`, all-pairs conjugacy `p_iᵀAp_j = δ_ij·rz_i/α_i` and `M⁻¹`-orthogonality of the residuals
+(`cg_invariants`), then normalisation (`rz_{k+1} = β_k rz_k`, `√(ab) = √a√b`). -/
+theorem cg_tridiag_eq_lanczos {N : NumOps α} (hN : Lawful N) (P : Params α) (he : 0 < P.eps) {n : Nat}
+    {s : Sys α n} (hA : LinSym s.amul) (hM : ∀ u v, dot u (preF P s v) = dot (preF P s u) v) (hMl : Lin (preF P s))
+    (xs : Vec α n) (hxs : s.amul xs = (prep N P s).b) (m : Nat)
+    (hreg : ∀ j < m, Regular P s (traj N P s j)) (i j : Nat) (hi : i < m) (hj : j < m) :
+    dot (qhat N P s i) (zhat N P s j) = (if i = j then 1 else 0) ∧
+    dot (zhat N P s i) (s.amul (zhat N P s j)) = (triFold N (fun k => traj N P s (k + 1)) m).t i j ∧
+    zhat N P s j = preF P s (qhat N P s j) := by
+  refine ⟨qhat_zhat hN P he hA hM xs hxs m hreg i j hi hj, ?_, ?_⟩
+  · rw [(triFold_closed N _ m).1 i j, if_pos ⟨hi, hj⟩]
+    exact zhat_gram hN P he hA hM xs hxs m hreg i j hi hj
+  · unfold zhat qhat
+    rw [hMl.smul, ← traj_zdef]
+
+/-- **Ritz values inside the spectrum** (`ritz_in_spectrum`, numerical-range form, FULL; any ordered field, either kernel):
+along `m` regular steps, for EVERY coefficient vector `c`,
+`lmin · cᵀc ≤ cᵀ T c ≤ lmax · cᵀc`, where `T` is the `m × m` matrix the tridiagonal updates built and `lmin`, `lmax` are
+Rayleigh-quotient bounds of the preconditioned operator `M⁻¹ᐟ²AM⁻¹ᐟ²` written with the closures
+(`lmin·yᵀM⁻¹y ≤ (M⁻¹y)ᵀA(M⁻¹y) ≤ lmax·yᵀM⁻¹y`; without preconditioner `lmin‖y‖² ≤ yᵀAy ≤ lmax‖y‖²`).  Hence every eigenvalue
+of `T` (Ritz value: take `c` an eigenvector) lies in `[lmin, lmax]`; in particular `T` is positive definite and `log`/`1/t`
+quadrature on it is well defined.  Proof: `cᵀc = yᵀM⁻¹y`, `cᵀTc = (M⁻¹y)ᵀA(M⁻¹y)` for `y = Σ c_i q̂_i` by
+`cg_tridiag_eq_lanczos`. -/
+theorem cg_ritz_in_spectrum {N : NumOps α} (hN : Lawful N) (P : Params α) (he : 0 < P.eps) {n : Nat}
+    {s : Sys α n} (hA : LinSym s.amul) (hM : ∀ u v, dot u (preF P s v) = dot (preF P s u) v) (hMl : Lin (preF P s))
+    (xs : Vec α n) (hxs : s.amul xs = (prep N P s).b) (m : Nat)
+    (hreg : ∀ j < m, Regular P s (traj N P s j)) (lmin lmax : α)
+    (hlo : ∀ y, lmin * dot y (preF P s y) ≤ dot (preF P s y) (s.amul (preF P s y)))
+    (hhi : ∀ y, dot (preF P s y) (s.amul (preF P s y)) ≤ lmax * dot y (preF P s y)) (c : Nat → α) :
+    lmin * ∑ i ∈ Finset.range m, c i * c i
+      ≤ ∑ i ∈ Finset.range m, ∑ j ∈ Finset.range m, c i * (triFold N (fun k => traj N P s (k + 1)) m).t i j * c j ∧
+    ∑ i ∈ Finset.range m, ∑ j ∈ Finset.range m, c i * (triFold N (fun k => traj N P s (k + 1)) m).t i j * c j
+      ≤ lmax * ∑ i ∈ Finset.range m, c i * c i :=
+  ritz_in_spectrum hN P he hA hM hMl xs hxs m hreg lmin lmax hlo hhi c
+
+/-- **Ritz values inside the spectrum, eigenvalue form** (over ℝ): under the hypotheses of `cg_ritz_in_spectrum`, EVERY
+eigenvalue of the returned-size block of `T` — Mathlib's `Matrix.IsHermitian.eigenvalues` of the symmetric `m × m` matrix
+`(triFold …).t` (`eigVal` of its closure `blockMul`) — lies in `[lmin, lmax]`, the spectral interval of the (preconditioned)
+operator.  This is the clause "Ritz values inside the spectrum" of the property statement, for every `m`, `n`, either kernel. -/
+theorem cg_ritz_eigenvalues {N : NumOps ℝ} (hN : Lawful N) (P : Params ℝ) (he : 0 < P.eps) {n : Nat}
+    {s : Sys ℝ n} (hA : LinSym s.amul) (hM : ∀ u v, dot u (preF P s v) = dot (preF P s u) v) (hMl : Lin (preF P s))
+    (xs : Vec ℝ n) (hxs : s.amul xs = (prep N P s).b) (m : Nat)
+    (hreg : ∀ j < m, Regular P s (traj N P s j)) (lmin lmax : ℝ)
+    (hlo : ∀ y, lmin * dot y (preF P s y) ≤ dot (preF P s y) (s.amul (preF P s y)))
+    (hhi : ∀ y, dot (preF P s y) (s.amul (preF P s y)) ≤ lmax * dot y (preF P s y)) (i : Fin m) :
+    lmin ≤ (matOf_hermitian (blockMul_linSym m _ (triFold_symm N (fun k => traj N P s (k + 1)) m))).eigenvalues i ∧
+    (matOf_hermitian (blockMul_linSym m _ (triFold_symm N (fun k => traj N P s (k + 1)) m))).eigenvalues i ≤ lmax :=
+  ritz_eigenvalues hN P he hA hM hMl xs hxs m hreg lmin lmax hlo hhi i
+
+/-- **Whole-call form: the returned `t_mat`s are the columns' own Lanczos recurrences.**  For every call that returns
+(any number of columns / batch members, any coupling through the stopping rule and the `< 1e-6` switch-off, any budget)
+there is a number `K ≤ iterations run`, `K ≤ min(max_tridiag_iter, n)` — the number of iterations during which the
+tridiagonal block was active — such that the list of returned tridiagonal matrices is, for the tridiagonal columns in order,
+`triFold` over THAT column's own trajectory `traj` (the same trajectory whose `iters`-th iterate is the returned solution,
+`cg_columns`), `K` updates; and for `K > 0` the returned size `last_tridiag_iter + 1` (clipped to `n_tridiag_iter`) is `K`.
+Hence `cg_tridiag_closed_form` and `cg_tridiag_eq_lanczos` (with `m = K` when the first `K` steps of the column are regular)
+are statements about the matrices `linear_cg` returns. -/
+theorem cg_call_tridiag (N : NumOps α) (P : Params α) {n : Nat} (sys : List (Sys α n)) (o : Out α n)
+    (h : linearCg N P sys = .ok o) :
+    ∃ K, K ≤ o.iters ∧ K ≤ min P.maxTridiagIter n ∧
+      o.t = ((sys.filter fun s => s.tri).map fun s => (triFold N (fun q => traj N P s (q + 1)) K).t) ∧
+      (0 < K → P.nTridiag ≠ 0 → o.tSize = K) := by
+  rw [linearCg_ok N P sys o h]
+  exact linearCgCore_t N P sys
 
 /-! ### convergence rate -/
 
@@ -519,6 +600,29 @@ theorem cg_chebyshev_rate {N : NumOps ℝ} (hN : Lawful N) (P : Params ℝ) (he 
   ⟨chebyshev_rate_norm hN P he hnp hA lmin lmax hpos hle hlo hhi xs hxs j hreg,
    chebyshev_rate_sq hN P he hnp hA lmin lmax hpos hle hlo hhi xs hxs j hreg⟩
 
+/-- **The Chebyshev rate for the preconditioned kernel** (`preconditioner is not None`, over ℝ, FULL): let `A` be symmetric
+positive semidefinite, the preconditioner closure `W = M⁻¹` symmetric positive definite, and `lmin`, `lmax` bounds of the
+spectrum of `M⁻¹ᐟ² A M⁻¹ᐟ²` in Rayleigh-quotient form written with the closures only,
+`lmin · yᵀWy ≤ (Wy)ᵀ A (Wy) ≤ lmax · yᵀWy` (substitute `z = W¹ᐟ² y`), `0 < lmin ≤ lmax`, `κ = lmax/lmin`.  Along `j` regular steps
+`‖x* − x_j‖_A ≤ 2 ((√κ − 1)/(√κ + 1))^j ‖x* − x_0‖_A` — any SPD preconditioner changes only `κ`, i.e. the speed.
+The `A`-orthogonal eigenbasis of `M⁻¹A` is constructed from two uses of the spectral theorem
+(`W = Σ μ_k u_k u_kᵀ`, `S = W¹ᐟ²`, `S A S = Σ λ_i y_i y_iᵀ`, `v_i = S y_i`). -/
+theorem cg_chebyshev_rate_precond {N : NumOps ℝ} (hN : Lawful N) (P : Params ℝ) (he : 0 < P.eps)
+    (hp : P.precond = true) {n : Nat} {s : Sys ℝ n} (hA : LinSym s.amul) (hpsd : ∀ v, 0 ≤ dot v (s.amul v))
+    (hW : LinSym s.pre) (hWpd : ∀ v, v ≠ 0 → 0 < dot v (s.pre v))
+    (lmin lmax : ℝ) (hpos : 0 < lmin) (hle : lmin ≤ lmax)
+    (hlo : ∀ y, lmin * dot y (s.pre y) ≤ dot (s.pre y) (s.amul (s.pre y)))
+    (hhi : ∀ y, dot (s.pre y) (s.amul (s.pre y)) ≤ lmax * dot y (s.pre y))
+    (xs : Vec ℝ n) (hxs : s.amul xs = (prep N P s).b) (j : Nat)
+    (hreg : ∀ i < j, Regular P s (traj N P s i)) :
+    Real.sqrt (errA s xs (traj N P s j).x)
+        ≤ 2 * ((Real.sqrt (lmax / lmin) - 1) / (Real.sqrt (lmax / lmin) + 1)) ^ j
+            * Real.sqrt (errA s xs (traj N P s 0).x) ∧
+    errA s xs (traj N P s j).x
+        ≤ (2 * ((Real.sqrt (lmax / lmin) - 1) / (Real.sqrt (lmax / lmin) + 1)) ^ j) ^ 2
+            * errA s xs (traj N P s 0).x :=
+  chebyshev_rate_pre hN P he hp hA hpsd hW hWpd lmin lmax hpos hle hlo hhi xs hxs j hreg
+
 /-! ### the hypotheses are satisfiable -/
 
 /-- `Lawful` is inhabited over `ℚ`-like fields on the inputs that occur when no square root is irrational:
@@ -569,5 +673,31 @@ example : errA realSys (fun _ => (1 / 2 : ℝ)) (traj realOps realParams realSys
   have hnn : ∀ v : Vec ℝ 1, 0 ≤ dot v v := dot_self_nonneg
   exact (cg_chebyshev_rate realOps_lawful realParams (by norm_num [realParams]) rfl realSys_linSym 2 3
     (by norm_num) (by norm_num) (fun v => by rw [hAv]) (fun v => by rw [hAv]; linarith [hnn v]) _ hb 1 hreg).2
+
+/-- The hypotheses of `cg_chebyshev_rate_precond` are satisfiable (`κ = 3/2`): the same system with the preconditioned
+kernel selected and the identity closure as (symmetric positive definite) preconditioner. -/
+example : errA realSys (fun _ => (1 / 2 : ℝ)) (traj realOps realParamsPre realSys 1).x
+    ≤ (2 * ((Real.sqrt (3 / 2) - 1) / (Real.sqrt (3 / 2) + 1)) ^ 1) ^ 2
+        * errA realSys (fun _ => (1 / 2 : ℝ)) (traj realOps realParamsPre realSys 0).x := by
+  have hreg : ∀ j < 1, Regular realParamsPre realSys (traj realOps realParamsPre realSys j) := by
+    intro j hj
+    have : j = 0 := by omega
+    subst this; exact realSys_regular_pre
+  have hb : realSys.amul (fun _ => (1 / 2 : ℝ)) = (prep realOps realParamsPre realSys).b := by
+    funext i; simp [realSys, prep, realParamsPre, realParams, realOps, norm2, dot_eq]
+  have hAv : ∀ v : Vec ℝ 1, dot v (realSys.amul v) = 2 * dot v v := by
+    intro v; simp [realSys, dot_eq]; ring
+  have hnn : ∀ v : Vec ℝ 1, 0 ≤ dot v v := dot_self_nonneg
+  have hW : LinSym realSys.pre :=
+    { add := fun _ _ => rfl, smul := fun _ _ => rfl, sym := fun _ _ => rfl }
+  have hWpd : ∀ v : Vec ℝ 1, v ≠ 0 → 0 < dot v (realSys.pre v) := by
+    intro v hv
+    have h0 : v 0 ≠ 0 := fun h => hv (by funext i; rw [Subsingleton.elim i 0, h]; rfl)
+    have : dot v (realSys.pre v) = v 0 * v 0 := by simp [realSys, dot_eq]
+    rw [this]; exact mul_self_pos.mpr h0
+  exact (cg_chebyshev_rate_precond realOps_lawful realParamsPre (by norm_num [realParamsPre, realParams]) rfl
+    realSys_linSym (fun v => by rw [hAv]; linarith [hnn v]) hW hWpd 2 3 (by norm_num) (by norm_num)
+    (fun y => by show 2 * dot y y ≤ dot y (realSys.amul y); rw [hAv])
+    (fun y => by show dot y (realSys.amul y) ≤ 3 * dot y y; rw [hAv]; linarith [hnn y]) _ hb 1 hreg).2
 
 end LinOp.C08
